@@ -148,6 +148,16 @@ func (in *inst) boot(genesis *pos.Validators) {
 				apply = nil
 				rec.noapply = true
 			}
+			if in.noApplyMod > 1 && rec.frame%in.noApplyMod == 1 && in.r.seals[[2]uint64{rec.epoch, rec.frame}] == nil {
+				// an application with nothing to decide at the end of this block passes no EndBlock callback
+				bi, ai := len(in.blocks), len(in.allBlocks)
+				in.blocks = append(in.blocks, rec)
+				in.allBlocks = append(in.allBlocks, rec)
+				return lachesis.BlockCallbacks{ApplyEvent: func(e dag.Event) {
+					in.blocks[bi].applied = append(in.blocks[bi].applied, e.ID())
+					in.allBlocks[ai].applied = in.blocks[bi].applied
+				}}
+			}
 			return lachesis.BlockCallbacks{
 				ApplyEvent: apply,
 				EndBlock: func() *pos.Validators {
